@@ -374,3 +374,23 @@ package types
 //@   ensures r == argmaxVal(vs.Validators, len(vs.Validators))
 //@   loop 1:
 //@     invariant 0 <= iter && iter <= len(vs.Validators) && res == argmaxVal(vs.Validators, iter)
+
+// ---------------------------------------------------------------- C09: the block gas pool
+
+//@ func (gp *GasPool) AddGas(amount uint64) (r *GasPool)
+//@   for C09
+//@   requires gp != nil
+//@   modifies *gp
+//@   ensures r == gp && *gp == old(*gp) + amount
+
+//@ func (gp *GasPool) SubGas(amount uint64) (err error)
+//@   for C09
+//@   requires gp != nil
+//@   modifies *gp
+//@   ensures err == nil ==> old(*gp) >= amount && *gp == old(*gp) - amount
+//@   ensures err != nil ==> *gp == old(*gp)
+
+//@ func (gp *GasPool) Gas() (r uint64)
+//@   for C09
+//@   requires gp != nil
+//@   ensures r == *gp
